@@ -22,7 +22,7 @@ for l in open(os.path.join(V, "properties.jsonl")):
         na.append({"property_id": pid, "reason": "no check registered yet: the Coq model and correspondence harness for this property are still being built (technique applies; see DESIGN.md section 5)"})
 m = {
  "version": 1,
- "setup_cmd": "sh coq/mk_coqproject.sh && make -C coq -j16 && sh driver/warm.sh",
+ "setup_cmd": "mkdir -p build && sh driver/setup.sh",
  "hooks": {"guard": "verif", "enable": "go test -tags verif -overlay <driver overlay> (in-package drivers under harness/inpkg are injected with -overlay; nothing is written into /repo)",
            "baseline_off_cmd": "sh /verif/baseline_off.sh", "source_commits": [], "add_only": True},
  "engines": [{"name": "coq-correspondence", "path": "driver/check.py",
